@@ -15,10 +15,12 @@ Executable model (core Lean only) of the decision core of
 A 2-d integer array with a mask is a list of rows of `Option`; `none` is a
 masked element (the padding of a connectivity row).
 
-The point-topology functions mirror the code *after* the proposed patches
-`fixes/C15-point-neighbours-from-faces.patch`, `fixes/C15-point-rows-per-node.patch`
-and `fixes/C15-point-start-index.patch`; the behaviour of the unpatched code is
-kept as `…Old`.  Everything else mirrors the code as it is.
+The point-topology functions mirror the code after the fix commits 00b4eb1, 9a9f570, 2c54535
+(`fixes/C15-point-neighbours-from-faces.patch`, `fixes/C15-point-rows-per-node.patch`,
+`fixes/C15-point-start-index.patch`, applied to /repo) and after the proposed
+`fixes/C15-point-edges-padded.patch` (masked elements of an edge array are ignored);
+`cellTopology` mirrors the code after the proposed `fixes/C15-edge-face-cells-start-index.patch`.
+The behaviour of the unpatched code is kept as `…Old`.  Everything else mirrors the code as it is.
 
 The specification (what the property says, written from the raw connectivity and
 not from the algorithm) is in the section `Spec` at the end.
@@ -154,12 +156,28 @@ def pointTopologyOld (src : Src) (si : Nat) (conn : Mat) : Option Mat :=
   some (d.map (fun r => r.map (fun v =>
     if v = 0 then none else some (if si = 0 then v - 1 else v))))
 
-/-! ### Edge and face cells: the reader hands over the stored values -/
+/-- `PointTopologyFromEdgesSubarray._connected_nodes` before
+`fixes/C15-point-edges-padded.patch`: `sorted(set(rows.flatten().tolist()))` meets `None`
+(→ `TypeError`, modelled as `none`) as soon as an edge that contains one of the nodes `1..n`
+also has a masked element; otherwise it is the patched function. -/
+def pointTopologyEdgesOld (si : Nat) (nNodes : Option Nat) (conn : Mat) : Option Mat :=
+  let c1 := toOneBased si conn
+  let n := match nNodes with
+    | some n => n
+    | none => largest c1
+  if c1.any (fun r => r.contains none && (compressed r).any (fun v => decide (1 ≤ v) && decide (v ≤ n)))
+  then none else some (pointTopology .edges si nNodes conn)
 
-/-- `_ugrid_create_domain_topology`, `else` branch: `data = self._create_data(…)`
-transposed when `cell_dimension == 1`.  `start_index` is popped from the
-properties and **not applied**. -/
-def cellTopology (cellDim : Nat) (stored : Mat) : Mat := selectData cellDim stored
+/-! ### Edge and face cells -/
+
+/-- `_ugrid_create_domain_topology`, `else` branch (patched by
+`fixes/C15-edge-face-cells-start-index.patch`): `data = self._create_data(…)` transposed when
+`cell_dimension == 1`, then `if start_index: data = data - start_index`. -/
+def cellTopology (si cellDim : Nat) (stored : Mat) : Mat :=
+  if si ≠ 0 then mapVals (· - si) (selectData cellDim stored) else selectData cellDim stored
+
+/-- Unpatched: `start_index` is popped from the properties and **not applied**. -/
+def cellTopologyOld (cellDim : Nat) (stored : Mat) : Mat := selectData cellDim stored
 
 /-! ### `CellConnectivitySubarray.__getitem__` -/
 
@@ -318,6 +336,16 @@ def specCellConnectivity (si : Nat) (data : Mat) : Mat :=
 /-- Bounds: the node coordinates gathered through the connectivity. -/
 def specBounds (si : Nat) (conn : Mat) (coords : List Int) : List (List (Option Int)) :=
   conn.map (fun r => r.map (fun o => o.map (fun v => coords.getD (v - si) 0)))
+
+/-- `normalise` of point cells / a cell connectivity, as the documentation states it: the cell
+whose identifier is `v` (the first element of some row) gets the number of that row, counted from
+`base`; an identifier that is the first element of no row belongs to no cell of the array and has
+no new value. -/
+def relabelOf (ids : List Int) (base : Int) (v : Int) : Option Int :=
+  if ids.idxOf v < ids.length then some (base + ((ids.idxOf v : Nat) : Int)) else none
+
+/-- The unmasked values of row `k` (`[]` outside the array). -/
+def rowVals {α} (m : List (List (Option α))) (k : Nat) : List α := compressed (m.getD k [])
 
 /-- Every stored value is a valid node id for `nNodes` nodes and this `start_index`. -/
 def WF (si nNodes : Nat) (conn : Mat) : Prop :=
